@@ -421,6 +421,67 @@ def r07q(rep, prog, only_files=None):
     return n
 
 
+INVALIDATING = ('push_back', 'emplace_back', 'insert', 'emplace', 'resize', 'reserve', 'assign', 'clear', 'erase', 'shrink_to_fit', 'swap', 'operator=')
+
+
+def r07r(rep, prog, only_files=None):
+    """no reference into a std::vector outlives a call that may reallocate it: `const auto &u = order[head++];` followed by
+    `order.push_back(w)` and another read of `u` reads freed storage as soon as the push reallocates (silent for small inputs, where the
+    freed block still holds the old value; a crash once the block is large enough to be unmapped)"""
+    n = 0
+    what = 'a reference to a vector element is not used after the vector may have been reallocated'
+    for fn in prog.functions:
+        if fn.implicit or fn.body is None or fn.cfg is None:
+            continue
+        if not (fn.file.startswith(env.REPO + '/include') or fn.file.startswith(env.WITNESS + '/positive')):
+            continue
+        if only_files and not any(x in fn.file for x in only_files):
+            continue
+        for d in fn.walk():
+            if d.k != 'VarDecl' or not d.c or d.decl_id is None:
+                continue
+            ty = prog.type(prog.vars[d.decl_id].get('ty')) or {}
+            ts = (ty.get('s') or '').rstrip()
+            if not ('base' in ty and ts.endswith('&') and not ts.endswith('&&')):
+                continue
+            ini = d.c[0].strip_all()
+            cont = None
+            if ini.k == 'CXXOperatorCallExpr' and ini.op == '[]' and len(ini.c) == 3:
+                cont = ini.c[1]
+            elif ini.k == 'CXXMemberCallExpr' and ini.callee and ini.callee['name'] in ('front', 'back', 'at') and ini.object_arg() is not None:
+                cont = ini.object_arg()
+            if cont is None:
+                continue
+            cv = ex.var_of(cont)
+            ct = prog.base_type(cont.strip_all().j.get('t')) or {}
+            if cv is None or (ct.get('rec') or '') not in ('std::vector', 'std::basic_string'):
+                continue
+            if 'vector<bool' in (ct.get('canon') or ''):
+                continue
+            n += 1
+            rv = d.decl_id
+
+            def is_decl(x, rv=rv):
+                return (x.k == 'VarDecl' and x.decl_id == rv) or (x.k == 'DeclStmt' and any(c_.k == 'VarDecl' and c_.decl_id == rv for c_ in x.c))
+            start = d.parent if d.parent is not None and d.parent.k == 'DeclStmt' and d.parent.i in fn.cfg.positions() else d
+            after_d = ex.flow_after(fn.cfg, start, is_decl)
+            grows = [x for x in after_d if x.k == 'CXXMemberCallExpr' and x.callee and x.callee['name'] in INVALIDATING and
+                     x.object_arg() is not None and ex.var_of(x.object_arg()) == cv]
+            hit = None
+            for g in grows:
+                uses = [x for x in ex.flow_after(fn.cfg, g, is_decl) if x.k == 'DeclRefExpr' and x.decl_id == rv]
+                if uses:
+                    hit = (g, min(uses, key=lambda x: (x.line, x.i)))
+                    break
+            if hit:
+                rep.violation('R07r', d, fn, what, '`%s` refers to an element of `%s` (line %d); `%s` (line %d) may reallocate the vector, and `%s` is read again at line %d' % (
+                    prog.vars[rv]['name'], prog.vars[cv]['name'], d.line, hit[0].text(30), hit[0].line, prog.vars[rv]['name'], hit[1].line),
+                    key='R07r|%s|%s' % (fn.g, prog.vars[rv]['name']))
+            else:
+                rep.ok('R07r', d, fn, what, '`%s`: no use after a growth of `%s`' % (prog.vars[rv]['name'], prog.vars[cv]['name']))
+    return n
+
+
 def r07l(rep, prog, only_files=None):
     """integer division / modulo whose divisor is the size of a container (or a count) that can be zero for a valid input - a forest has no
     feedback vertices, no candidate cycles, no trees - is a division by zero (SIGFPE).  Flagged when the divisor is `X.size()` / `num_vertices` /
@@ -911,6 +972,7 @@ def run(rep, tier):
     rep.rule('R07d', 'no dereference of end()', floor=0)
     rep.rule('R07p', 'std::accumulate and friends sum in a type as wide as the elements (the initial value fixes the accumulator type)', floor=0)
     rep.rule('R07q', 'no use of a moved-from standard container without re-initialisation', floor=0)
+    rep.rule('R07r', 'no reference to a vector element is used after the vector may have reallocated', floor=0)
     rep.rule('R07o', 'comparators handed to std::sort and the other ordering algorithms are irreflexive', floor=2)
     rep.rule('R07j', 'no recursion along the graph in library functions', floor=0)
     rep.rule('R06d', 'the scratch maps of the closing-path search are private to each search (no stale labels, no sharing between TBB tasks)', floor=2)
@@ -952,6 +1014,7 @@ def run(rep, tier):
         r07o(rep, prog)
         r07p(rep, prog)
         r07q(rep, prog)
+        r07r(rep, prog)
         r07e(rep, prog)
         from . import c04
         sub4 = type(rep)(rep.prop, rep.tier)
@@ -987,6 +1050,8 @@ def run(rep, tier):
     r07o(prep7, pp)
     r07p(prep7, pp)
     r07q(prep7, pp)
+    r07r(prep7, pp)
+    rep.positive('R07r', 'witness/positive/c07_shapes.cc', any(i.status == 'violation' and i.rule == 'R07r' for i in prep7.instances.values()))
     rep.positive('R07q', 'witness/positive/c07_shapes.cc', any(i.status == 'violation' and i.rule == 'R07q' for i in prep7.instances.values()))
     rep.positive('R07p', 'witness/positive/c07_shapes.cc', any(i.status == 'violation' and i.rule == 'R07p' for i in prep7.instances.values()))
     rep.positive('R07o', 'witness/positive/c07_shapes.cc', any(i.status == 'violation' and i.rule == 'R07o' for i in prep7.instances.values()))
